@@ -117,7 +117,11 @@ class C01(Check):
             return m["mode"], matrix_program(m["mode"], m["kind"], skip_known=m.get("skip_known", True)), case.get("optlist", [])
         mode = MODES[case["mode"] % len(MODES)]
         prog = progen.realise(case["prog"], [mode], allow_known=True)
-        return mode, prog, OPTSETS[case["opts"] % len(OPTSETS)]
+        opts = OPTSETS[case["opts"] % len(OPTSETS)]
+        if mode == "static-pie":
+            # glibc's static-pie start-up code linked by GNU ld / lld itself crashes under --no-relax
+            opts = [o for o in opts if o != "--no-relax"]
+        return mode, prog, opts
 
     def excluded_by_construction(self, case):
         mode, prog, _ = self._program(case)
@@ -181,7 +185,7 @@ class C01(Check):
         for i, s in enumerate(prog.sites):
             if i >= len(got) or got[i] != exp[i]:
                 t = prog.defs[s["tgt"]]
-                sig = progen.known_domain(s["ref"], t, mode) or f"value:{s['ref']}/{t['kind']}:{t['bind']}/{mode}"
+                sig = progen.known_domain(s["ref"], t, mode) or f"value:{s['ref']}/{progen.CAT[t['kind']]}"
                 raise Violation(sig, f"site {s['n']} ({s['ref']} -> {t['kind']} {t['bind']} {t['name']}"
                                 f"{' =' + hex(t['absval']) if t['kind'] == 'abs' else ''}, addend index {s['k']}, {mode} {opts}): "
                                 f"wild-linked program observes {got[i][9:] if i < len(got) else 'nothing'}, GNU ld, lld and the model "
@@ -231,7 +235,6 @@ class C01(Check):
                 results = list(ex.map(one, cells))
         finally:
             shutil.rmtree(root, ignore_errors=True)
-        first = None
         done = skipped = nsites = 0
         allcells = set()
         for status, case, info, n in results:
@@ -246,8 +249,10 @@ class C01(Check):
                 stats.extra.setdefault("matrix_skipped_samples", [])
                 if len(stats.extra["matrix_skipped_samples"]) < 5:
                     stats.extra["matrix_skipped_samples"].append({"cell": case, "why": info[:200]})
-            elif first is None:
-                first = info
+            else:
+                # every distinct root cause found by the matrix pass is reported (core de-duplicates by signature)
+                stats.violations.append({"signature": info.signature, "message": info.message, "detail": info.detail,
+                                         "case": case})
         stats.extra["matrix_cells_run"] = done
         stats.extra["matrix_cells_skipped"] = skipped
         stats.extra["matrix_sites"] = nsites
@@ -255,8 +260,6 @@ class C01(Check):
         if skipped:
             raise Inconclusive(f"matrix pass: {skipped} cell(s) left the calibrated domain (reference rejects or splits): "
                                f"{stats.extra['matrix_skipped_samples'][0]}")
-        if first is not None:
-            raise first
 
 
 def _errline(err):
